@@ -22,6 +22,7 @@ import M4riProofs.Trsm
 import M4riProofs.MathlibSpec
 import M4riProofs.Top
 import M4riProofs.GenTie
+import M4riProofs.GenTieRec
 namespace M4ri.Props.C04
 open M4ri M4ri.BMat
 
@@ -98,5 +99,17 @@ theorem upper_right_solves {U B : BMat} (hUr : U.nrows = B.ncols) (hUc : U.ncols
 #check @M4ri.GenTie.trsmLowerRightSplit_eq
 #check @M4ri.GenTie.trsmLowerLeftSplit_eq
 #check @M4ri.GenTie.trsmUpperLeftSplit_eq
+
+
+/-! ### tie to the C text: the COMPLETE C functions `_mzd_trsm_*` (regime switch incl. the block-size expression, inline base cases of the
+    left variants, 5 windows, two recursive calls, one product) are generated by vlib/ctrans.py on every check with their callees as
+    function parameters; instantiated with the model's own recursion at `fuel` they equal one step of the model recursion (GenTieRec.lean) -/
+#check @M4ri.GenTieRec.trsmUpperRightRec_step
+#check @M4ri.GenTieRec.trsmLowerRightRec_step
+#check @M4ri.GenTieRec.trsmLowerLeftRec_step
+#check @M4ri.GenTieRec.trsmUpperLeftRec_step
+#check @M4ri.GenTieRec.trsmLowerLeftRec_step_base
+#check @M4ri.GenTieRec.trsmUpperLeftRec_step_base
+#check @M4ri.GenTieRec.blocksize_eq
 
 end M4ri.Props.C04
